@@ -516,4 +516,107 @@ example : written true ⟨1, 0, 100, 5, 0, 30, false, false, false, false, false
     written true ⟨1, 0, 100, 5, 5, 5, true, true, false, false, false, false, []⟩ 7 = 5 := by
   decide +kernel
 
+/-! ### joint non-vacuity: ALL hypotheses of a theorem on one instance, and the theorem instantiated on it -/
+
+-- non-vacuity (joint) of `region_separation_R` (wide channel, first attempt)
+example :
+    let o : ROpts := ⟨false, true, false, 0, fun _ _ => false, false, 10, id⟩
+    let a : RSeg := ⟨1, 0, 100, 5, 0, 30, false, false, false, false, false, false, []⟩
+    let b : RSeg := ⟨2, 50, 150, 5, 0, 30, false, false, false, false, false, false, []⟩
+    ∃ pos, AllHoldF ((regionCons o 10 [a, b]).map (flat [a, b])) pos ∧ overlapsWith o b a = true ∧ FullGapR o a b ∧
+      pos (varIdx [a, b] 0) + 10 ≤ pos (varIdx [a, b] 1) := by
+  intro o a b
+  have hov : overlapsWith o b a = true := by decide +kernel
+  have hfg : FullGapR o a b := by unfold FullGapR; decide +kernel
+  have hA : AllHoldF ((regionCons o 10 [a, b]).map (flat [a, b]))
+      (fun k => if k = 3 then 10 else if k = 2 ∨ k = 5 then 30 else 0) := by
+    unfold AllHoldF FCon.holds; decide +kernel
+  exact ⟨_, hA, hov, hfg, region_separation_R o 10 [a, b] _ hA 0 1 a b rfl rfl (by decide) hov (Or.inl rfl) hfg⟩
+
+-- non-vacuity (joint) of `region_alignment_R`: shared path with a common end point, option off: equality
+example :
+    let o : ROpts := ⟨false, false, false, 0, fun _ _ => true, false, 10, id⟩
+    let a : RSeg := ⟨1, 0, 100, 5, 0, 30, false, false, false, false, false, false, []⟩
+    let b : RSeg := ⟨2, 50, 150, 5, 0, 30, false, false, false, false, false, false, []⟩
+    ∃ pos, AllHoldF ((regionCons o 10 [a, b]).map (flat [a, b])) pos ∧ overlapsWith o b a = true ∧
+      gapOf o 10 a b = (0, true) ∧ pos (varIdx [a, b] 0) = pos (varIdx [a, b] 1) := by
+  intro o a b
+  have hov : overlapsWith o b a = true := by decide +kernel
+  have hg : gapOf o 10 a b = (0, true) := by decide +kernel
+  have hA : AllHoldF ((regionCons o 10 [a, b]).map (flat [a, b]))
+      (fun k => if k = 0 ∨ k = 3 then 5 else if k = 2 ∨ k = 5 then 30 else 0) := by
+    unfold AllHoldF FCon.holds; decide +kernel
+  exact ⟨_, hA, hov, hg, region_alignment_R o 10 [a, b] _ hA 0 1 a b rfl rfl (by decide) hov (Or.inl rfl) hg⟩
+
+-- non-vacuity (joint) of `retry_invariant`, `retry_separation`, `retry_limits`, `applied_separation_R`,
+-- `retry_distance_threshold`, `retry_distance_bounds`: the narrow channel, the state reached AFTER one retry
+-- (distance 9, not the start state), a solver output satisfying its rewritten constraints
+example :
+    let o : ROpts := ⟨false, true, false, 0, fun _ _ => false, false, 10, id⟩
+    let a : RSeg := ⟨1, 0, 100, 5, 0, 5, false, false, false, false, false, false, []⟩
+    let b : RSeg := ⟨2, 50, 150, 5, 0, 5, false, false, false, false, false, false, []⟩
+    ∃ st pos, Reach o (regionVars o [a, b]) (initState o [a, b]) st ∧ st.sepDist = 9 ∧ st ≠ initState o [a, b] ∧
+    AllHoldF st.cons pos ∧ overlapsWith o b a = true ∧ FullGapR o a b ∧ (∀ s, nextSep o s ≤ s) ∧ 0 < o.base ∧
+    (∀ r, o.rnd r = r) ∧ a.fixed = false ∧ a.lower = some 0 ∧
+    pos (varIdx [a, b] 0) + st.sepDist ≤ pos (varIdx [a, b] 1) ∧
+    (absQ (pos (clIdx [a, b] 0) - 0) ≤ 0 → 0 - 0 ≤ pos (varIdx [a, b] 0)) ∧
+    written true a (pos (varIdx [a, b] 0)) + (st.sepDist - 2 * 4) ≤ written true b (pos (varIdx [a, b] 1)) := by
+  intro o a b
+  have hm : ∀ s, nextSep o s ≤ s := reduction_nonincreasing_exact o (fun _ => rfl) (by decide +kernel)
+  have hb : 0 < o.base := by decide +kernel
+  have hov : overlapsWith o b a = true := by decide +kernel
+  have hfg : FullGapR o a b := by unfold FullGapR; decide +kernel
+  have hd : (nudgeStep o (regionVars o [a, b]) (initState o [a, b]) [0, 0, 5, 10, 0, 10]).map
+      (fun out => (out.retry, out.next.sepDist, out.next.cons)) =
+      some (true, 9, [⟨1, 0, 0, false⟩, ⟨0, 2, 0, false⟩, ⟨4, 3, 0, false⟩, ⟨0, 3, 9, false⟩, ⟨3, 5, 0, false⟩]) := by
+    decide +kernel
+  match hs : nudgeStep o (regionVars o [a, b]) (initState o [a, b]) [0, 0, 5, 10, 0, 10] with
+  | none => rw [hs] at hd; cases hd
+  | some out =>
+    rw [hs] at hd
+    simp only [Option.map_some, Option.some.injEq, Prod.mk.injEq] at hd
+    obtain ⟨h1, h2, h3⟩ := hd
+    have hr := Reach.step (o := o) [0, 0, 5, 10, 0, 10] Reach.start hs h1
+    have hA : AllHoldF out.next.cons (fun k => if k = 3 ∨ k = 2 ∨ k = 5 then 9 else 0) := by
+      rw [h3]; unfold AllHoldF FCon.holds; decide +kernel
+    refine ⟨out.next, _, hr, h2, ?_, hA, hov, hfg, hm, hb, fun _ => rfl, rfl, by decide +kernel,
+      retry_separation o [a, b] _ hb hm _ hr _ hA 0 1 a b rfl rfl (by decide) hov (Or.inl rfl) hfg,
+      (retry_limits o [a, b] _ hm _ hr _ hA 0 0 a rfl rfl).1 0 (by decide +kernel),
+      applied_separation_R o [a, b] _ hb hm _ hr _ hA 4 0 1 a b rfl rfl (by decide) hov (Or.inl rfl) hfg
+        (by decide +kernel) (by decide +kernel)⟩
+    intro he; rw [he] at h2; revert h2; decide +kernel
+
+-- non-vacuity of `ruleCmp_fixed_rule`: a fixed segment and a free one limited from below, at the same position
+example :
+    let x : RSeg := ⟨1, 0, 100, 5, 5, 5, true, false, false, false, false, false, []⟩
+    let y : RSeg := ⟨2, 50, 150, 5, 0, 30, false, false, false, false, false, false, []⟩
+    ruleCmp 10 x y = some true := by
+  intro x y
+  have h := ruleCmp_fixed_rule 10 x y rfl (Or.inl (by decide +kernel)) (by decide +kernel)
+  rw [h]; decide +kernel
+
+-- non-vacuity of `unify_only_free_equalities`: a state reachable by one round that does hold a constraint
+example :
+    let o : ROpts := ⟨false, true, false, 0, fun _ _ => false, true, 10, id⟩
+    let segs : List RSeg := [⟨1, 0, 100, 5, 0, 30, false, false, false, false, true, false, []⟩,
+         ⟨2, 50, 150, 5, 0, 34, false, false, false, false, true, false, []⟩,
+         ⟨3, 60, 160, 5, 0, 50, false, false, false, false, false, true, []⟩]
+    ∃ st, UReach o (unifyVars o segs) (unifyInit o segs) st ∧ st.cons = [⟨0, 1, 0, true⟩] := by
+  intro o segs
+  have hd : (unifyStep o (unifyVars o segs) (unifyInit o segs) [15, 17, 25]).map (fun out => out.next.cons) =
+      some [⟨0, 1, 0, true⟩] := by decide +kernel
+  match hs : unifyStep o (unifyVars o segs) (unifyInit o segs) [15, 17, 25] with
+  | none => rw [hs] at hd; cases hd
+  | some out =>
+    rw [hs] at hd
+    simp only [Option.map_some, Option.some.injEq] at hd
+    exact ⟨out.next, UReach.step [15, 17, 25] UReach.start hs, hd⟩
+
+-- `linesort_respects_rules` is about non-trivial outputs: the rule comparator sorts the wrongly ordered pair
+example :
+    (linesortLoop (fun x y => match ruleCmp 10 x y with | some r => (r, true) | none => (false, false)) 4
+      [⟨1, 0, 100, 7, 0, 30, false, false, false, false, false, false, []⟩,
+       ⟨2, 50, 150, 5, 0, 30, false, false, false, false, false, false, []⟩] [] 2 0).map (·.conn) = [2, 1] := by
+  decide +kernel
+
 end AdaptaVerif.Props.C10Region
